@@ -16,6 +16,7 @@ from itertools import product
 import numpy as np
 
 from .. import circmon, qubitref as qr, tomoref
+from ..gen import equivalent_variant
 from .common import drain_into, merge_stats, setup
 
 PROPERTY = "C15"
@@ -25,8 +26,9 @@ RULE = ("seeded base circuits on 2n visible modes, n=1..3: random products of si
         "the qubit rails); callback results as dict or SamplingResult; distinct = (n, gate sequence, herald placement "
         "class); non-trivial = state with complex off-diagonals or entanglement or ancillas")
 MANDATORY = ["nonzero_Y_expectation", "entangled_state", "direct_herald_not_last", "private_ancillas", "n1", "n2", "n3",
-             "sampling_result_callback", "tomography_object_reused_after_edit"]
-DECIDING = ["callback_circuits_checked", "process_postconditions"]
+             "sampling_result_callback", "tomography_object_reused_after_edit", "base_presented_as:copy",
+             "base_presented_as:frozen_copy", "base_presented_as:unpacked_copy"]
+DECIDING = ["callback_circuits_checked", "process_postconditions", "earlier_objects_rechecked"]
 BUDGET = {"quick": 30, "thorough": 480}
 ASSUMPTIONS = ["prepared state = base circuit applied to |0..0> in dual-rail encoding, conditioned on heralds and one "
                "photon per qubit", "tolerances: rho 1e-8, fidelity 1e-6, circuit identification 1e-8"]
@@ -95,6 +97,7 @@ def run(ctx):
     State = lw.State
     tomo = lw.tomography
     SamplingResult = lw.emulator.results.SamplingResult
+    earlier: list = []
     while not ctx.out_of_time():
         n = int(rng.choice([1, 1, 2, 2, 2, 3])) if ctx.tier == "thorough" else int(rng.choice([1, 1, 2, 2, 2, 2, 3]))
         try:
@@ -107,6 +110,15 @@ def run(ctx):
         if base.input_modes != 2 * n:
             ctx.count("skipped_layout")
             continue
+        try:
+            base, variant = equivalent_variant(base, rng)
+            if variant == "unpacked_copy":
+                direct = "none" if not base.heralds["input"] else "direct_after_unpack"
+        except Exception as e:  # noqa: BLE001
+            ctx.count("variant_raised:" + type(e).__name__)
+            continue
+        ctx.bucket("base_presented_as:" + variant)
+        circmon.drain()
         ctx.bucket("n%d" % n)
         if base._internal_modes:
             ctx.bucket("private_ancillas")
@@ -130,7 +142,8 @@ def run(ctx):
         as_result = bool(rng.random() < 0.4)
         if as_result:
             ctx.bucket("sampling_result_callback")
-        case = {"n": n, "base": log, "direct_heralds": direct, "callback_returns": "SamplingResult" if as_result else "dict"}
+        case = {"n": n, "base": log, "direct_heralds": direct, "base_presented_as": variant,
+                "callback_returns": "SamplingResult" if as_result else "dict"}
         fp = circmon.circuit_fingerprint(base, with_unitary=True)
         seen = {"settings": [], "problems": []}
         in_occ = [1, 0] * n
@@ -169,6 +182,12 @@ def run(ctx):
             drain_into(ctx, case)
             continue
         ctx.count("process_postconditions")
+        # earlier tomography objects must still report their own result
+        for old_st, old_rho in earlier:
+            ctx.count("earlier_objects_rechecked")
+            if np.max(np.abs(old_st.rho - old_rho)) > 1e-12:
+                ctx.violation("the rho reported by an earlier StateTomography object changed after a later object ran",
+                              case=case, mechanism="earlier_object_changed", monitor="earlier-object re-read")
         mech_suffix = ":" + ("direct_heralds" if direct != "none" else "no_direct_heralds")
         # callback monitor: exactly one circuit per required setting, each = basis change after base
         required = sorted("".join(s) for s in product("XYZ", repeat=n))
@@ -229,6 +248,11 @@ def run(ctx):
             except Exception as e:  # noqa: BLE001
                 ctx.violation(f"second process() raised {type(e).__name__}: {e}", case=case,
                               mechanism="state_tomography_raised_on_reuse:" + type(e).__name__, monitor="driver")
+        try:
+            earlier.append((st, np.array(st.rho, copy=True)))      # recorded only after this case stopped using it
+            del earlier[:-3]
+        except Exception:  # noqa: BLE001
+            pass
         ctx.case((n, tuple(tuple(map(str, g)) for g in log), direct), bool(y_exp > 0.05 or ent or direct != "none"),
                  sample=case)
         drain_into(ctx, case)
